@@ -79,14 +79,14 @@ func (f *Frame) callExtern(v ssa.Value, fn *ssa.Function, argVals []ssa.Value, a
 		f.setResults(v, mkRes())
 	case "(reflect.Value).Call":
 		if f.checks("panic") {
-			f.oblige("panic", "reflect.Call-args-match", pos, f.reflectCallOK(args))
+			f.oblige("reflect", "reflect.Call-args-match", pos, f.reflectCallOK(args))
 		}
 		f.ghostInc("#res")
 		f.setResults(v, mkRes())
 	case "(reflect.Value).Interface", "(reflect.Value).Elem", "(reflect.Value).Index", "(reflect.Value).Len", "(reflect.Value).Field", "(reflect.Value).FieldByName", "(reflect.Value).IsNil", "(reflect.Value).NumMethod", "(reflect.Value).Method", "(reflect.Value).Type", "(reflect.Value).Set", "(reflect.Value).SetMapIndex", "(reflect.Value).MapIndex", "(reflect.Value).NumField":
 		if f.checks("panic") {
 			fnn := f.enc.declFun("reflect_ok_"+sanitize(name), sortsOf(args), SBool)
-			f.oblige("panic", "reflect:"+fn.Name(), pos, App(SBool, fnn, args...))
+			f.oblige("reflect", "reflect:"+fn.Name(), pos, App(SBool, fnn, args...))
 		}
 		f.setResults(v, mkRes())
 	default:
